@@ -31,7 +31,9 @@ LEVEL = "exploration"
 BUDGET = {"quick": 60000, "thorough": 1200000}
 RULE = (
     "each run is one of: (concurrent use, 10%) 2..3 tasks issue anext/aclose on one tool iterator at the same time - "
-    "errors are the library's right, invented suspensions are not; (tokens, 60%) a workload of another operation class (iterator tools, aggregations, "
+    "errors are the library's right, invented suspensions are not; (misc, 10%) one ExitStack unwound by two tasks, "
+    "closing/nullcontext around a suspending aclose, caches / apply over generator-based (types.coroutine) "
+    "coroutines; (tokens, 50%) a workload of another operation class (iterator tools, aggregations, "
     "borrow, scoped_iter, tee, lru_cache, cached_property, contextmanager, ExitStack, decorators, groupby, "
     "asynctools) executed with interrupt density 1 (two absorbed throws per suspension) or 1/2, judged only by the "
     "loop protocol: object reaching the loop is a live token of that task, reply object and interrupt object reach "
@@ -46,7 +48,7 @@ ASSUMPTIONS = [
     "token protocol: user awaitables yield a Token object and expect its private reply object back (identity)",
     "violations of the re-used workloads' own clauses are not attributed to C17",
 ]
-PROBES = ("concurrent_use_mode", "library_refused_concurrent_use", "tokens_mode", "sync_mode", "interrupt_absorbed", "tripwire_subprocess_ran")
+PROBES = ("misc_mode", "concurrent_use_mode", "library_refused_concurrent_use", "tokens_mode", "sync_mode", "interrupt_absorbed", "tripwire_subprocess_ran")
 CLASSES = ("c01", "c02", "c05", "c07", "c09", "c10", "c11", "c12", "c14", "c15", "c16", "c19", "c08", "c13", "c20",
            "c03", "c04", "c06", "c18")
 _mods = {}
@@ -346,6 +348,156 @@ def misuse_part(st, ctx, out):
     return finish_outcome(out, st, sim, ctx)
 
 
+# --------------------------------------------------------------------------- corners no other workload visits
+def misc_part(st, ctx, out):
+    """
+    (a) one ExitStack unwound by one task while another task closes it as well; (b) ``closing`` / ``nullcontext``
+    around an object whose ``aclose`` suspends; (c) caches and ``apply`` over *generator-based*
+    coroutines (``types.coroutine`` - what curio / trio style traps are made of: awaitable, yet without ``__await__``).
+    Judged by the loop protocol; (c) additionally must simply work.
+    """
+    import types
+    from ..loop import PAUSE
+    from .common import new_sim, run_sim, finish_outcome
+
+    ch = st.scenario
+    sim = new_sim(st, interrupts=False)
+    common.set_interrupts(sim, (1, 2, 0)[ch.draw(3)])
+    L = lib()
+    what = ch.draw(3)
+    problems = []
+    detail = {}
+
+    async def pause(n, who):
+        for _ in range(n):
+            await sim.suspend(PAUSE, None, who)
+
+    if what == 0:
+        n = ch.between(1, 3)
+        susp = [ch.between(1, 2) for _ in range(n)]
+        b_pauses = ch.draw(4)
+        b_ops = ch.between(1, 2)
+        stack = L.ExitStack()
+        detail = {"kind": "ExitStack shared by two tasks", "exits": susp, "second_task_waits": b_pauses}
+
+        class CM:
+            def __init__(self, k):
+                self.k = k
+
+            async def __aenter__(self):
+                return self
+
+            async def __aexit__(self, *exc):
+                await pause(susp[self.k], "exit")
+                return False
+
+        async def task_a():
+            async with stack:
+                for k in range(n):
+                    if k % 2:
+                        stack.push(CM(k))
+                    else:
+                        await stack.enter_context(CM(k))
+                await pause(1, "body")
+
+        async def task_b():
+            await pause(b_pauses, "other")
+            for _ in range(b_ops):
+                try:
+                    await stack.aclose()
+                except Exception as err:  # refusing concurrent use would be the library's right
+                    detail.setdefault("refused", repr(err))
+                await pause(1, "other")
+
+        sim.spawn(task_a())
+        sim.spawn(task_b())
+    elif what == 1:
+        k_close = ch.between(1, 3)
+        raises = ch.chance(1, 3)
+        detail = {"kind": "closing / nullcontext", "aclose_suspends": k_close, "block_raises": raises}
+
+        class Thing:
+            closed = 0
+
+            async def aclose(self):
+                await pause(k_close, "aclose")
+                Thing.closed += 1
+
+        async def task():
+            thing = Thing()
+            try:
+                async with L.closing(thing) as got, L.nullcontext(7) as seven:
+                    if got is not thing or seven != 7:
+                        problems.append("closing / nullcontext bound %r / %r" % (got, seven))
+                    await pause(1, "body")
+                    if raises:
+                        raise KeyError("block")
+            except KeyError:
+                pass
+            if Thing.closed != 1:
+                problems.append("closing awaited aclose %d times" % Thing.closed)
+
+        sim.spawn(task())
+    else:
+        maxsize = (None, None, 1, 2, 0)[ch.draw(5)]
+        keys = [ch.draw(3) for _ in range(ch.between(1, 5))]
+        k_f = ch.between(1, 2)
+        detail = {"kind": "generator-based coroutines", "maxsize": maxsize, "keys": keys}
+        calls = []
+
+        @types.coroutine
+        def trap(who):
+            # a generator-based coroutine: legal to await, has no __await__ attribute
+            got = yield from sim.suspend(PAUSE, None, who).__await__()
+            return got
+
+        @types.coroutine
+        def wrapped(key):
+            calls.append(key)
+            for _ in range(k_f):
+                yield from trap("wrapped")
+            return ("v", key)
+
+        async def task():
+            cached = L.cache(wrapped) if (maxsize is None and keys[0] % 2) else L.lru_cache(maxsize=maxsize)(wrapped)
+            try:
+                for key in keys:
+                    v = await cached(key)
+                    if v != ("v", key):
+                        problems.append("cache over a generator-based coroutine gave %r for %r" % (v, key))
+                r = await L.apply(lambda a, b=0: (a, b), wrapped(10), b=wrapped(11))
+                if r != (("v", 10), ("v", 11)):
+                    problems.append("apply gave %r" % (r,))
+                # (any_iter / sync / awaitify recognise awaitables by collections.abc.Awaitable, which generator-based
+                # coroutine objects are not registered with: handing them *items* or *results* of that kind is outside
+                # what the library promises; awaiting them directly - caches, apply - is not)
+            except Exception as err:
+                problems.append("failed for a generator-based coroutine: %r" % (err,))
+
+        sim.spawn(task())
+    run_sim(sim)
+    sig = ("misc", ("exitstack_two_tasks", "closing", "generator_based_coroutines")[what])
+    if sim.deadlock:
+        out.violate("C17.deadlock", sig, detail)
+    elif not sim.capped:
+        if sim.breaches:
+            out.violate("C17." + sim.breaches[0][0], sig, dict(detail, breaches=[repr(b) for b in sim.breaches[:3]]))
+        elif problems:
+            out.violate("C17.does_not_work_with_plain_awaitables", sig, dict(detail, problems=problems))
+        for t in sim.tasks:
+            if t.error is not None and not problems and not sim.breaches:
+                out.violate("C17.task_failed", sig + (type(t.error).__name__,), dict(detail, error=repr(t.error)))
+                break
+    out.probes["misc_mode"] = 1
+    out.nontrivial = sim.n_tokens > 0
+    out.shape = ("misc", what, tuple(sorted((k, repr(v)) for k, v in detail.items())))
+    if ctx.want_sample:
+        out.sample = dict(detail, mode="misc")
+    if ctx.want_log:
+        out.log = [repr(detail), problems, sim.trace]
+    return finish_outcome(out, st, sim, ctx)
+
+
 def execute(st, ctx):
     out = Outcome()
     sel = st.scenario.draw(10)
@@ -353,6 +505,8 @@ def execute(st, ctx):
         return sync_part(st, ctx, out)
     if sel == 3:
         return misuse_part(st, ctx, out)
+    if sel == 4:
+        return misc_part(st, ctx, out)
     return tokens_part(st, ctx, out)
 
 
